@@ -103,6 +103,12 @@ def path_strings(maxlen: int, canary: Path, real: dict) -> list[str]:
     out += ["..\\..\\outside", "x\\..\\..\\outside\\shards_list.json"]
     out += [a.replace("/outside/", "/outside/./") for a in absolute[:2]]
     out += [a.replace("/outside/", "/root/../outside/") for a in absolute[:2]]
+    # plain relative spellings of the EXISTING files outside (a native
+    # reader that opens a missing file leaves no trace; an existing one is
+    # seen by inotify)
+    for up in ("..", "train/../..", "./..", "a/../..", "train/x/../../.."):
+        for tail in ("x.fb", "shards_list.json", "sub/shards_list.json"):
+            out.append(f"{up}/outside/{tail}")
     # siblings of the root whose NAME starts with the root's name (a
     # containment test on strings instead of path components lets them in);
     # relative to the root and relative to a split directory
@@ -235,6 +241,18 @@ def exercise(root: Path, with_native: bool) -> list[str]:
     return done
 
 
+def _names_outside_file(root: Path, s: str) -> bool:
+    import unicodedata
+    for v in {s, s.replace("\\", "/"), unicodedata.normalize("NFKC", s)}:
+        try:
+            p = os.path.normpath(os.path.join(str(root), v))
+        except (TypeError, ValueError):
+            continue
+        if os.path.isfile(p) and not (p + "/").startswith(str(root) + "/"):
+            return True
+    return False
+
+
 def case_chunk(args) -> dict:
     field, idxs, maxlen, with_native = args
     hook()
@@ -273,11 +291,15 @@ def case_chunk(args) -> dict:
                     _AUD["on"] = False
             else:
                 inject(root, pristine, field, s)
-                watcher = Outside(outside) if with_native else None
+                # native readers (Rust, tf.data) for a slice of the strings
+                # and for every string that names an existing file outside
+                wn = with_native or (field in ("shard", "child") and
+                                     _names_outside_file(root, s))
+                watcher = Outside(outside) if wn else None
                 _AUD["hits"] = []
                 _AUD["on"] = True
                 try:
-                    steps = exercise(root, with_native)
+                    steps = exercise(root, wn)
                 finally:
                     _AUD["on"] = False
                 if watcher:
